@@ -22,6 +22,7 @@ type Layout struct {
 	Semis      bool       // ；between simple statements of one block
 	ExtraSpace bool
 	BlankLines bool
+	RawBreaks  bool // a line break inside a text value is written as a real line break of the file (multi-line literal) when it equals the file's EOL
 }
 
 func RandomLayout(r *rand.Rand) Layout {
@@ -41,6 +42,7 @@ func RandomLayout(r *rand.Rand) Layout {
 	l.Semis = r.Intn(3) == 0
 	l.ExtraSpace = r.Intn(3) == 0
 	l.BlankLines = r.Intn(2) == 0
+	l.RawBreaks = r.Intn(2) == 0
 	return l
 }
 
@@ -482,6 +484,21 @@ func (r *renderer) expr(e Expr, minPrec int) string {
 	case Num:
 		return v.Lit
 	case Str:
+		if r.l.RawBreaks && !r.noBreak && strings.Contains(v.S, r.l.eol()) {
+			// multi-line literal: the parts between line breaks are quoted as usual, the breaks
+			// themselves are the file's own line ends
+			parts := strings.Split(v.S, r.l.eol())
+			out := ""
+			for i, p := range parts {
+				q := QuoteText(p)
+				q = strings.TrimSuffix(strings.TrimPrefix(q, "“"), "”")
+				if i > 0 {
+					out += r.l.eol()
+				}
+				out += q
+			}
+			return "“" + out + "”"
+		}
 		return QuoteText(v.S)
 	case Name:
 		return v.N
